@@ -99,7 +99,8 @@ Theorem C16_history_witness_repaired : forall a a',
 Proof. exact history_repaired. Qed.
 Print Assumptions C16_history_witness_repaired.
 
-(* ---- known finding F-C16c: the server's greedy analysis ---- *)
+(* ---- the repaired defect F-C16c (41281c3): the server's greedy analysis; statements about the OLD behaviour and
+        about why removing the greedy-only symbols again is enough ---- *)
 (* The table of the analysed run is the build's table plus the edges of definitions that only exist in untaken
    branches / uninvoked macro bodies.  foo: nop / { .if 0 { foo: nop } / .word foo }: the analysed run binds
    `.word foo` to the untaken foo (node 3), the build to the outer one (node 1). *)
